@@ -28,6 +28,7 @@ TRUSTED = [
 M32, M64 = (1 << 32) - 1, (1 << 64) - 1
 NS_DAY = 86400 * 10**9
 _PQ = None
+_SCRATCH = "/tmp"      # per-job directories live under the run's scratch root (removed by ctx.finish)
 
 
 def _init():
@@ -436,7 +437,7 @@ def _job(job):
         except Exception:   # noqa
             import traceback
             return {"outcome": "harness-error", "err": traceback.format_exc()[-1500:], "problems": []}
-    tmp = tempfile.mkdtemp(prefix="verif-C03w-", dir="/tmp")
+    tmp = tempfile.mkdtemp(prefix="verif-C03w-", dir=_SCRATCH)
     try:
         try:
             res = run_case(lf, table, tmp, cats=bool(expect.get("categories")))
@@ -651,6 +652,8 @@ def extraction_vs_kernel(ctx, k=6):
 
 
 def run(ctx):
+    global _SCRATCH
+    _SCRATCH = ctx.scratch
     C.coq_lib()
     ctx.trusted = TRUSTED
     ctx.coq_file(os.path.join(C.COQ, "props", "C03.v"))
